@@ -556,7 +556,8 @@ class G:
             elif r < 0.84:
                 out.append(Ret(self.expr(rng.choice(['num', 'bool']), 1, env, 0.0, marks=False)))
             elif r < 0.92:
-                v = '变%d' % self.fresh()
+                # (a name may begin with 注 as long as no ： follows its digits: 注7号 is a name, 注7： a comment)
+                v = ('注%d号' if rng.random() < 0.12 else '变%d') % self.fresh()
                 out.append(Decl([v], self.expr('num', 1, env, 0.0, marks=False)))
                 env[v] = 'num'
             elif r < 0.95 and getattr(self, 'flow_throws', False):
